@@ -292,6 +292,20 @@ pub fn cases(rng: &mut Rng, count: usize, tier: &str) -> Vec<Case> {
         for _ in 0..nedits {
             edit(rng, &mut f2, style != 0, &mut tags);
         }
+        // two releases: different, non-zero release dates, the newer one in either argument position
+        // (Ontology::compare takes its arguments as given, whatever their dates)
+        let mut f1 = f1;
+        if rng.chance(1, 2) {
+            let d = |rng: &mut Rng| (rng.range(1990, 2030) as u16, rng.range(1, 12) as u8, rng.range(1, 28) as u8);
+            f1.version = d(rng);
+            f2.version = loop {
+                let v = d(rng);
+                if v != f1.version {
+                    break v;
+                }
+            };
+            tags.push("two_releases");
+        }
         if nedits == 1 && !tags.is_empty() {
             tags.push("nt");
         }
